@@ -25,6 +25,25 @@ add("C01", "exploration", E1 + " (obs-level identity of written vs read records,
     "any slot, judged on a deep observation that includes class, flavour, family, bit pattern and UTC offset.",
     "Values outside the alphabets; CPython 3.12 + msgpack in /venv; mc.obs as the notion of identity.", "DESIGN.md C01")
 
+add("C02", "exploration", E1 + " (independent codec mc.refcodec in both directions, 8 wire variants, frozen golden corpus)",
+    "Bytes written for every record sequence of the C01 space decode under an independent implementation of the published format "
+    "(own msgpack subset, frames, ext-14 sub-types, recomputed descriptor hash) to exactly the records written; the same records "
+    "encoded by the reference codec in 8 conforming variants (extra trailing reserved fields, no version field, bare-name "
+    "identifier, non-minimal msgpack classes, repeated descriptor/header frames) and a golden corpus frozen at the pinned revision "
+    "are read back as the records they encode.",
+    "mc.refcodec is the trusted statement of the format; byte identity with the golden files is reported, not judged.", "DESIGN.md C02")
+add("C03", "model_checking", E2 + " to a fixpoint of the descriptor-registry machine (binary and JSON packers, 1-3 writers)",
+    "All reachable registry states of 1..2 (3 thorough) simultaneously open writers over a kind set with same-name, "
+    "identifier-coinciding, nested-only and grouped-only types are visited to a fixpoint; on every transition the appended frames are "
+    "decoded by the reference decoder and by the real reader and must carry the descriptor the record was created with; other "
+    "writers' bytes must be untouched.",
+    "Canonical state = writer registries + reference-reader registry (argument in DESIGN C03); kinds are a fixed finite set.", "DESIGN.md C03")
+add("C04", "fault_enumeration", E3 + " (cuts of raw and gzip images judged against reference frame boundaries / zlib-available plaintext)",
+    "For 5 streams (raw and gzip) every byte cut x 3 read paths, and every failing or short write-call index x accepted-byte count "
+    "x {crash, close} on three real writer stacks: reading yields exactly the records whose frames are complete, unaltered, in order; "
+    "cuts at frame boundaries end without an error.",
+    "One injected fault per execution; gzip completeness relies on zlib.decompressobj as independent reference.", "DESIGN.md C04")
+
 NOT_BUILT = "check not built yet in this round (design in DESIGN.md section 3); not claimed until it runs"
 
 
